@@ -1,5 +1,6 @@
 from contextlib import suppress
 from inspect import signature
+from types import SimpleNamespace
 import copy
 
 import numpy as np
@@ -136,7 +137,10 @@ class BoundConstraints:
         self.m = np.count_nonzero(self.xl > -np.inf) + np.count_nonzero(
             self.xu < np.inf
         )
-        self.pcs = PreparedConstraint(bounds, np.ones(bounds.lb.size))
+        if self.xl.size > 0:
+            self.pcs = PreparedConstraint(bounds, np.ones(bounds.lb.size))
+        else:
+            self.pcs = None
 
     @property
     def xl(self):
@@ -704,9 +708,18 @@ class Problem:
 
         # Set the bound constraints.
         self._orig_bounds = bounds
-        self._bounds = BoundConstraints(
-            Bounds(bounds.xl[~self._fixed_idx], bounds.xu[~self._fixed_idx])
-        )
+        if np.all(self._fixed_idx):
+            # scipy.optimize.Bounds does not accept empty arrays.
+            self._bounds = BoundConstraints(
+                SimpleNamespace(lb=np.empty(0), ub=np.empty(0))
+            )
+        else:
+            self._bounds = BoundConstraints(
+                Bounds(
+                    bounds.xl[~self._fixed_idx],
+                    bounds.xu[~self._fixed_idx],
+                )
+            )
 
         # Set the initial guess.
         self._x0 = self._bounds.project(x0[~self._fixed_idx])
